@@ -210,6 +210,8 @@ func qAtomText(a *qAtom) string {
 		return fmt.Sprintf(`%s:"%s"`, a.K, a.Tok)
 	case "ftime", "ltime":
 		return tm(a.K)
+	case "capc":
+		return `cdata:"(?P<v>[A-Z]+)"`
 	case "fteq":
 		return fmt.Sprintf(`ftime:"%s"`, qTime(a.N).Format("2006-01-02 150405"))
 	case "protoself":
@@ -519,7 +521,11 @@ func TestVerifQuery(t *testing.T) {
 				}
 				for ri, run := range inp.Runs {
 					// rotate the runs over the cases so that every case sees a few, every run many cases
-					if (ci+ri+li)%3 != 0 && !(run.Limit == 0 && len(run.Sort) == 1 && ri == 0) {
+					byVar := len(run.Group) == 1 && run.Group[0] == "v" // grouping by what a data filter captured
+					if byVar != strings.Contains(text, "(?P<v>") {
+						continue
+					}
+					if !byVar && (ci+ri+li)%3 != 0 && !(run.Limit == 0 && len(run.Sort) == 1 && ri == 0) {
 						continue
 					}
 					sorting := []query.Sorting{}
